@@ -69,6 +69,14 @@ fn texts(t: FT) -> Vec<(String, Option<J>)> {
 			for s in ["closed", "hlc4", "ohlc4", "volumed price", "t p"] {
 				v.push((s.into(), None));
 			}
+			// fixed-width fields: long runs of whitespace around a valid name
+			for (nm, canon) in [("close", "close"), ("volumed_price", "volumed_price"), ("HL2", "hl2")] {
+				for pad in [8usize, 12, 16, 17, 32, 33, 64, 300] {
+					v.push((format!("{}{nm}", " ".repeat(pad)), Some(J::from(canon))));
+					v.push((format!("{nm}{}", " ".repeat(pad)), Some(J::from(canon))));
+					v.push((format!("{}{nm}\r\n", "\t".repeat(pad / 4)), Some(J::from(canon))));
+				}
+			}
 			// one-bit neighbours of every canonical name: only ASCII case variants may be accepted
 			let names = ["close", "open", "high", "low", "hl2", "tp", "hlc3", "volume", "volumed_price"];
 			for nm in names {
@@ -286,6 +294,19 @@ fn setters(h: &mut H) {
 		// names that are not parameters of this indicator
 		let mut others: Vec<String> = vec!["".into(), " ".into(), "period ".into(), "NAME".into(), "cfg".into()];
 		for k in before.keys() {
+			// decorated numbers: a name that ends in digits, written with leading zeros / a sign / spaces
+			let digits_at = k.trim_end_matches(|c: char| c.is_ascii_digit()).len();
+			if digits_at < k.len() {
+				let (pre, num) = k.split_at(digits_at);
+				for deco in ["0", "00", "+", "-", " ", "_"] {
+					others.push(format!("{pre}{deco}{num}"));
+				}
+				others.push(format!("{pre}{num}0"));
+				others.push(format!("{pre}{num}.0"));
+				others.push(pre.to_string());
+			}
+			others.push(format!("{k}0"));
+			others.push(format!("{k}1"));
 			others.push(format!("{k}x"));
 			others.push(k.to_uppercase());
 			others.push(format!(" {k}"));
@@ -295,6 +316,7 @@ fn setters(h: &mut H) {
 				others.push(k.clone());
 			}
 		}
+		others.retain(|k| !before.contains_key(k));
 		for k in others {
 			for text in ["5", "0.5", "close", "sma-5", "true"] {
 				cases += 1;
